@@ -84,6 +84,8 @@ type world struct {
 	last   time.Time
 	reqs   int
 	cancel int
+	limit  int  // more requests than this in one sync: the loop is going round in circles
+	spin   bool // the limit was hit
 	peers  map[string]*fakePeer
 }
 
@@ -139,6 +141,16 @@ func (p *fakePeer) RequestNodeData(kind types.TrieKind, hashes []common.Hash) er
 	p.n++
 	w.reqs++
 	doCancel := w.cancel > 0 && w.reqs == w.cancel
+	if w.reqs > w.limit {
+		// livelock guard: the sync keeps asking without ever finishing; end it and report it as stuck
+		first := !w.spin
+		w.spin = true
+		w.mu.Unlock()
+		if first {
+			go w.run.Cancel()
+		}
+		return nil
+	}
 	ids := []int{}
 	var genuine [][]byte
 	for _, h := range hashes {
@@ -259,7 +271,7 @@ func scenario(env *drive.Env, src *triesync.Source, beh *Beh) {
 	if rtt == 0 {
 		rtt = 15 * time.Millisecond
 	}
-	w := &world{src: src, cancel: beh.CancelAt, peers: map[string]*fakePeer{}, last: time.Now()}
+	w := &world{src: src, cancel: beh.CancelAt, peers: map[string]*fakePeer{}, last: time.Now(), limit: 100*src.Size() + 500}
 	w.dest = &recDB{youdb.NewMemDatabase(), w}
 	w.loop = downloader.NewVerifTrieLoop(rtt, w.dropped)
 	honest := false
@@ -301,7 +313,7 @@ wait:
 	}
 	tick.Stop()
 	w.loop.Close()
-	end := map[string]interface{}{"ev": "End", "err": w.run.Err(), "pending": w.run.Pending(), "dest": w.destIds(), "stuck": stuck,
+	end := map[string]interface{}{"ev": "End", "err": w.run.Err(), "pending": w.run.Pending(), "dest": w.destIds(), "stuck": stuck || w.spin, "spin": w.spin,
 		"honest": honest, "cancel": beh.CancelAt > 0, "dropped": w.loop.Dropped(), "ms": int(time.Since(start) / time.Millisecond)}
 	dg, walk := triesync.DigestOf(w.dest.MemDatabase, src.Root(), src.IsState())
 	end["walk"], end["dig"], end["srcdig"] = walk, dg, src.Digest()
